@@ -411,6 +411,8 @@ def run(chk):
         known, iknown = sx_opt(known), sx_opt(iknown)
         mdefs = model_defs(m[1]) if m[0] == 'ok' else None
         equal = mdefs is not None and non_helper(mdefs) == non_helper(defs)
+        if unparsed and not equal and chk.unreadable(lang, dict(payload, text=ic[1][:3000] if isinstance(ic[1], str) else None), unparsed):
+            continue
         payload.update(impl_defs=non_helper(defs), model_defs=non_helper(mdefs) if mdefs is not None else m[0], expected_sigs=dump_sx(expected), in_domain=dom == 'true',
                        unparsed=unparsed[:5])
         if dom == 'true':
@@ -454,7 +456,10 @@ def run(chk):
         jreq, jidx = [], []
         for i, (k, job, o) in enumerate(zip(pick, jobs, outs)):
             if o['output'] is not None and o['rc'] == 0:
-                defs, _, _ = extract_defs(job[1], o['output'])
+                defs, unread, _ = extract_defs(job[1], o['output'])
+                if unread:
+                    chk.unreadable(job[1], {'part': 'cli', 'lang': job[1], 'source': srcs[k], 'text': o['output'][:3000]}, unread)
+                    o['unreadable'] = True
                 jreq.append(f'(c03_back {job[1]} {asts[k]["ok"]} () {defs_sx(defs)})')
                 jidx.append(i)
         jr = dict(zip(jidx, vf.model(jreq)))
@@ -487,6 +492,8 @@ def run(chk):
                     continue
                 dom, known, good, expected = jr[i]
                 known = sx_opt(known)
+                if o.get('unreadable') and good != 'true':
+                    continue
                 if dom == 'true' and good != 'true':
                     if known is None or not chk.known(known, payload):
                         chk.violation(f'cli-{i}', payload, 'the file written by the real binary does not define exactly the annotated items')
